@@ -318,6 +318,12 @@ func (s *Stream) WriteSCTP(payload []byte, ppi PayloadProtocolIdentifier) (int, 
 		return 0, ErrStreamClosed
 	}
 
+	if len(payload) == 0 {
+		// nothing to send: an empty message produces no chunk and must not
+		// consume a stream sequence number / message identifier.
+		return 0, nil
+	}
+
 	// the send could fail if the association is blocked for writing (timeout), it will left a hole
 	// in the stream sequence number space, so we need to lock the write to avoid concurrent send and decrement
 	// the sequence number in case of failure
